@@ -256,6 +256,7 @@ const c08H2Bound = "all strings of length <=2 and 0x00+all 2-byte strings; frame
 const c08H2Rule = "each input is read with a fresh MFramer (configured as NewServerConn/NewClientConn do) by repeated ReadFrame(ctx, buf, 0) until empty/ErrAGAIN/error, three times (exact-capacity buffer, 4096 spare bytes of 0xA5 / 0x3C); oracle: no panic escapes, identical frames/errors under different poison, TotalAlloc delta <= 1MiB+32*len(input), every call returns (60s; or >300ms with >128MiB in use and growing: the call is recorded and the enumeration continues in a fresh process, at most 8 (quick) / 400 (thorough) times). Which error a corrupted frame yields is not compared."
 
 func TestVerifC08H2Framer(t *testing.T) {
+	t.Parallel() // (each part enumerates in its own child process)
 	c08.Main(t, c08.Spec{Prop: "C08", Part: "h2framer", Budget: time.Duration(vreport.Pick(6, 30)) * time.Minute,
 		Gen: c08H2Gen("h2framer"), Exec: c08ExecH2,
 		NoAlloc: func(c c08.Case) bool { return c.Class == "short" && !vreport.Thorough() },
